@@ -32,6 +32,9 @@ RULE = ("corpus: one witness per recorded finding; adversarial: 40 hand-written 
         "further lets (untypable method or plain call, reference, copy of another variable, struct literal, typed let) in every order, emitted by value or "
         "by reference (220 projects x 2 modes); layout: serde types defined below module directories named dist, node_modules, build, out, gen, vendor, "
         "tests, examples, benches, bin, .cargo, target2, my_target, git, foo.rs, src, lib (flat, nested, doubled; 51 projects x 2 modes); "
+        "names: a project-defined serde struct / enum named like a std or ecosystem type, a TypeScript global, a primitive look-alike or a tool-internal name "
+        "(43 names x struct|enum x 2 modes), unmapped, at every site kind; derives: 13 legal spellings of the serde derive (path-qualified, one trait only, "
+        "split over attributes, spacing, trailing commas, multi-line) on a struct and an enum used as parameter, return, field, payload (x 2 modes); "
         "history: 60 (quick) / 600 (thorough) two-generation histories into one output directory (event removed / "
         "added / unrelated project / same project; same or other mode), the second run is judged: the files it wrote (marker technique) against the "
         "model of the second project, index.ts against exactly those files; random: 600 (quick) / 6000 (thorough) projgen graph projects with events, channels, enums, type mappings, 70% clean contexts / 30% wild, x 2 modes; "
@@ -269,6 +272,8 @@ def run(rep):
     rep.add("multisite", evaluate(both(G.multisite_cases()), reps=2))
     rep.add("rebinding", evaluate(both(G.rebinding_cases())))
     rep.add("layout", evaluate(both(G.layout_cases())))
+    rep.add("names", evaluate(both(G.special_name_cases())))
+    rep.add("derives", evaluate(both(G.derive_spelling_cases())))
     hp = G.history_pairs(rng, 60 if rep.tier == "quick" else 600)
     hist = {label: (a, m1, b, m2) for label, a, m1, b, m2 in hp}
     rep.add("history", evaluate([(label, b, m2) for label, a, m1, b, m2 in hp], history=hist))
